@@ -45,6 +45,23 @@ fn check_interleave(cols: usize, rows: usize, backward: bool, acc: &mut Acc) {
     // i32, identity-valued
     let x: Vec<i32> = (0..len as i32).collect();
     let want: Vec<i32> = perm.iter().map(|&i| x[i]).collect();
+    // array views with stride -1 and stride 2 are the same vector
+    {
+        use ndarray::s;
+        let rev = Array1::from_iter(x.iter().rev().cloned());
+        let wide = Array1::from_iter((0..2 * len as i32).map(|i| if i % 2 == 0 { i / 2 } else { -7 }));
+        match guard(|| (il.interleave(&rev.slice(s![..;-1])).to_vec(), il.interleave(&wide.slice(s![..;2])).to_vec())) {
+            Ok((a, b)) if a == want && b == want => {}
+            Ok(_) => {
+                acc.violate(key.clone(), "interleave of a reversed / strided view differs from interleave of the owned vector".into(), replay.clone());
+                return;
+            }
+            Err(p) => {
+                acc.violate(key.clone(), format!("interleave of a view panicked: {}", p), replay.clone());
+                return;
+            }
+        }
+    }
     match guard(|| il.interleave(&Array1::from_vec(x.clone())).to_vec()) {
         Ok(got) if got == want => {}
         Ok(got) => {
@@ -179,6 +196,18 @@ fn check_puncture(plen: usize, bits: u32, block: usize, acc: &mut Acc) {
             if keep {
                 want_dep[k * block..(k + 1) * block].copy_from_slice(&want[j * block..(j + 1) * block]);
                 j += 1;
+            }
+        }
+    }
+    {
+        use ndarray::s;
+        let rev = Array1::from_iter(x.iter().rev().cloned());
+        let wide = Array1::from_iter((0..2 * n as i32).map(|i| if i % 2 == 0 { i / 2 + 1 } else { -9 }));
+        match guard(|| (p.puncture(&rev.slice(s![..;-1])).map(|a| a.to_vec()), p.puncture(&wide.slice(s![..;2])).map(|a| a.to_vec()))) {
+            Ok((Ok(a), Ok(b))) if a == want && b == want => {}
+            other => {
+                acc.violate(key.clone(), format!("puncture of a reversed / strided view gives {:?}, want {:?}", other, want), replay.clone());
+                return;
             }
         }
     }
